@@ -1,5 +1,6 @@
 import Gms.Driver.Proto
 import Gms.Model.NumConv
+import Gms.Model.TimeCmp
 open Gms.Proto Gms.Num Gms.Conv
 
 def val? : Sexp → Option Val
@@ -45,12 +46,52 @@ def cmpCase (t : Ty) (a b : Val) : String :=
         else "-"
       answer impl.render sp.render region
 
-def lawsCase (nulls : String) (rs : List Cmp) (echo : String) : String :=
+/-! stream T: temporal types (Gms/Model/TimeCmp.lean) -/
+
+def tty? : Sexp → Option Gms.TimeCmp.TTy
+  | .atom "date" => some .date
+  | .list [.atom "datetime", p] => p.nat?.map .datetime
+  | .list [.atom "timestamp", p] => p.nat?.map .timestamp
+  | _ => none
+
+def tval? : Sexp → Option Gms.TimeCmp.TVal
+  | .atom "null" => some .null
+  | .list [.atom "t", ns, _off] => ns.int?.map .t
+  | .list (.atom "c" :: y :: mo :: d :: h :: mi :: s :: ns :: _) =>
+    match y.int?, mo.int?, d.int?, h.int?, mi.int?, s.int?, ns.int? with
+    | some y, some mo, some d, some h, some mi, some s, some ns => some (.c ⟨y, mo, d, h, mi, s, ns⟩)
+    | _, _, _, _, _, _, _ => none
+  | .list [.atom "zero", _k] => some .zero
+  | .list [.atom "i", n] => n.int?.map .i
+  | .list [.atom "bad", _s] => some .bad
+  | _ => none
+
+def tcmpCase (t : Gms.TimeCmp.TTy) (a b : Gms.TimeCmp.TVal) : String :=
+  let impl := Gms.TimeCmp.implCompare t a b
+  match Gms.TimeCmp.specCompare t a b with
+  | none => answer impl.render "?"
+  | some sp =>
+    if impl = sp then answer impl.render
+    else
+      let region :=
+        if Gms.TimeCmp.null_sorts_last a b then "null_sorts_last"
+        else if Gms.TimeCmp.time_operand_not_rounded t a b then "time_operand_not_rounded"
+        else "-"
+      answer impl.render sp.render region
+
+def rank? : Sexp → Option Int
+  | .atom s => s.toInt?
+  | _ => none
+
+def lawsCase (nulls : String) (rs : List Cmp) (echo : String) (ranks : List Sexp) : String :=
   match rs, nulls.toList with
   | [ab, ba, bc, cb, ac, ca, aa, bb, cc], ['n', na, nb, nc] =>
     let t : Tri := ⟨ab, ba, bc, cb, ac, ca, aa, bb, cc⟩
+    let refOk := match ranks with
+      | [ra, rb, rc] => Gms.TimeCmp.refOrder t (rank? ra) (rank? rb) (rank? rc)
+      | _ => true
     let bad := (if t.refl then [] else ["refl"]) ++ (if t.antisymm then [] else ["antisymm"]) ++
-      (if t.trans then [] else ["trans"])
+      (if t.trans then [] else ["trans"]) ++ (if refOk then [] else ["ref-order"])
     if !bad.isEmpty then answer echo ("violates:" ++ ",".intercalate bad)
     else if !t.nullFirst (na == '1') (nb == '1') (nc == '1') then answer echo "violates:null-first" "null_sorts_last"
     else answer echo
@@ -62,10 +103,18 @@ def handle (p : List Sexp) : String :=
     match ty? t, val? a, val? b with
     | some t, some a, some b => cmpCase t a b
     | _, _, _ => answer "bad-case"
+  | [.list [.atom "tcmp", t, a, b]] =>
+    match tty? t, tval? a, tval? b with
+    | some t, some a, some b => tcmpCase t a b
+    | _, _, _ => answer "bad-case"
   | [.list (.atom "laws" :: _name :: .atom nulls :: rest)] =>
     let rsAtoms := rest.take 9
     match rsAtoms.mapM (fun s => s.str? >>= cmp?) with
-    | some rs => lawsCase nulls rs (" ".intercalate (rsAtoms.filterMap Sexp.str?))
+    | some rs =>
+      let ranks := match rest.drop 10 with
+        | [.list (.atom "ranks" :: rk)] => rk
+        | _ => []
+      lawsCase nulls rs (" ".intercalate (rsAtoms.filterMap Sexp.str?)) ranks
     | none => answer "bad-case"
   | _ => answer "bad-case"
 
